@@ -26,11 +26,13 @@
 (*                      outside the try/finally that releases the lock       *)
 (*   D_UnlockedStop     close() raises the stop flag and the go-ahead         *)
 (*                      without the delivery lock                            *)
+(*   D_ResetUnhandled   a connection reset (recv raises) ends the transport        *)
+(*                      thread without raising its stop flag                 *)
 (*   D_SenderKeepsLock  send_message() on a connection that has just ended    *)
 (*                      raises with the association lock held                *)
 (* Decides C08.                                                             *)
 (***************************************************************************)
-EXTENDS Naturals, FiniteSets, TLC
+EXTENDS Naturals, FiniteSets, Sequences, TLC
 
 CONSTANTS Role,          \* "client" | "server"
           Consumers,     \* application threads that call get_message()
@@ -52,9 +54,9 @@ VARIABLES phase,         \* state reported to the application: "Setup" "Open" "C
           cpc, cmsg,     \* consumers
           apc,           \* application thread calling close(): "idle" "done"
           spc,           \* application thread calling send_message(): "idle" "acq" "chk" "done"
-          peerEof, dprIn, dprSent, dpaIn, estab, refused, inbound, budget
+          peerEof, rst, dprIn, dprSent, dpaIn, estab, refused, inbound, budget
 vars == <<phase, running, ppc, active, stopA, trSet, connected, trStop, sockOpen, lsnOpen, tpc, wpc, alock, plock, ready, postQ, cpc, cmsg, apc, spc,
-          peerEof, dprIn, dprSent, dpaIn, estab, refused, inbound, budget>>
+          peerEof, rst, dprIn, dprSent, dpaIn, estab, refused, inbound, budget>>
 
 Free == 0
 PSM == 100  WK == 101
@@ -64,61 +66,68 @@ Init == /\ phase = "Setup" /\ running = TRUE /\ ppc = "tick" /\ active = FALSE /
         /\ connected = TRUE /\ trStop = FALSE /\ sockOpen = TRUE /\ lsnOpen = (Role = "server")
         /\ tpc = "check" /\ wpc = "top" /\ alock = Free /\ plock = Free /\ ready = FALSE /\ postQ = 0
         /\ cpc = [c \in Consumers |-> "idle"] /\ cmsg = [c \in Consumers |-> FALSE] /\ apc = "idle" /\ spc = "idle"
-        /\ peerEof = FALSE /\ dprIn = FALSE /\ dprSent = FALSE /\ dpaIn = FALSE /\ estab = FALSE
+        /\ peerEof = FALSE /\ rst = FALSE /\ dprIn = FALSE /\ dprSent = FALSE /\ dpaIn = FALSE /\ estab = FALSE
         /\ refused \in (IF Role = "client" THEN BOOLEAN ELSE {FALSE}) /\ inbound = 0 /\ budget = Budget
 
 (* ------------------------------------------------------------ environment *)
 \* the capabilities exchange completes (CEA / CER arrives); never on a refused connection
 Establish == /\ ~estab /\ ~refused /\ ~peerEof /\ phase = "Setup" /\ estab' = TRUE
              /\ UNCHANGED <<phase, running, ppc, active, stopA, trSet, connected, trStop, sockOpen, lsnOpen, tpc, wpc, alock, plock, ready, postQ, cpc, cmsg, apc, spc,
-                            peerEof, dprIn, dprSent, dpaIn, refused, inbound, budget>>
-PeerEof == /\ ~peerEof /\ ~refused /\ peerEof' = TRUE
+                            peerEof, rst, dprIn, dprSent, dpaIn, refused, inbound, budget>>
+\* the peer goes away: orderly (FIN, recv returns nothing) or abruptly (RST, recv raises)
+PeerEof == /\ ~peerEof /\ ~refused /\ peerEof' = TRUE /\ rst' \in BOOLEAN
            /\ UNCHANGED <<phase, running, ppc, active, stopA, trSet, connected, trStop, sockOpen, lsnOpen, tpc, wpc, alock, plock, ready, postQ, cpc, cmsg, apc, spc,
                           dprIn, dprSent, dpaIn, estab, refused, inbound, budget>>
 PeerDpr == /\ phase = "Open" /\ ~dprIn /\ ~peerEof /\ dprIn' = TRUE
            /\ UNCHANGED <<phase, running, ppc, active, stopA, trSet, connected, trStop, sockOpen, lsnOpen, tpc, wpc, alock, plock, ready, postQ, cpc, cmsg, apc, spc,
-                          peerEof, dprSent, dpaIn, estab, refused, inbound, budget>>
+                          peerEof, rst, dprSent, dpaIn, estab, refused, inbound, budget>>
 PeerDpa == /\ dprSent /\ ~dpaIn /\ ~peerEof /\ dpaIn' = TRUE
            /\ UNCHANGED <<phase, running, ppc, active, stopA, trSet, connected, trStop, sockOpen, lsnOpen, tpc, wpc, alock, plock, ready, postQ, cpc, cmsg, apc, spc,
-                          peerEof, dprIn, dprSent, estab, refused, inbound, budget>>
+                          peerEof, rst, dprIn, dprSent, estab, refused, inbound, budget>>
 \* an application message from the peer reaches the state machine's queue (at most 2)
 PeerMsg == /\ phase = "Open" /\ budget > 0 /\ ~peerEof /\ inbound' = inbound + 1 /\ budget' = budget - 1
            /\ UNCHANGED <<phase, running, ppc, active, stopA, trSet, connected, trStop, sockOpen, lsnOpen, tpc, wpc, alock, plock, ready, postQ, cpc, cmsg, apc, spc,
-                          peerEof, dprIn, dprSent, dpaIn, estab, refused>>
+                          peerEof, rst, dprIn, dprSent, dpaIn, estab, refused>>
 Env == Establish \/ PeerEof \/ PeerDpr \/ PeerDpa \/ PeerMsg
 
 (* ------------------------------------------------------------ application: close() *)
 \* Diameter.close(): raises when Closed, otherwise only clears state_is_active
 AppClose == /\ apc = "idle" /\ phase # "Closed" /\ active' = FALSE /\ apc' = "done"
             /\ UNCHANGED <<phase, running, ppc, stopA, trSet, connected, trStop, sockOpen, lsnOpen, tpc, wpc, alock, plock, ready, postQ, cpc, cmsg, spc,
-                           peerEof, dprIn, dprSent, dpaIn, estab, refused, inbound, budget>>
+                           peerEof, rst, dprIn, dprSent, dpaIn, estab, refused, inbound, budget>>
 
 (* ------------------------------------------------------------ state machine thread *)
-PUnch == UNCHANGED <<tpc, wpc, cpc, cmsg, apc, spc, peerEof, estab, refused, budget>>
+PUnch == UNCHANGED <<tpc, wpc, cpc, cmsg, apc, spc, peerEof, rst, estab, refused, budget>>
 \* a tick that decides to close starts the teardown (get_next_state(CLOSED))
 StartTeardown == ppc' = "t_run"
 PTickSetup ==
     /\ ppc = "tick" /\ phase = "Setup"
     /\ \/ /\ refused /\ Role = "client"                                   \* Conn-Nack
-          /\ StartTeardown /\ UNCHANGED <<phase, active>>
+          /\ StartTeardown /\ UNCHANGED active
        \/ /\ trStop /\ ~refused                                            \* Peer-Disc during setup
           /\ IF Role = "server" THEN ~Dev("D_ServerEofIgnored") ELSE ~Dev("D_SetupEofIgnored")
-          /\ StartTeardown /\ UNCHANGED <<phase, active>>
-       \/ /\ estab /\ ~trStop /\ phase' = "Open" /\ active' = TRUE /\ UNCHANGED ppc
-    /\ UNCHANGED <<running, stopA, trSet, connected, trStop, sockOpen, lsnOpen, alock, plock, ready, postQ, dprIn, dprSent, dpaIn, inbound>>
+          /\ StartTeardown /\ UNCHANGED active
+       \/ /\ estab /\ ~trStop /\ active' = TRUE /\ ppc' = "opening"       \* set_open_state(early_stage): the flag first,
+    /\ UNCHANGED <<phase, running, stopA, trSet, connected, trStop, sockOpen, lsnOpen, alock, plock, ready, postQ, dprIn, dprSent, dpaIn, inbound>>
     /\ PUnch
+POpening == /\ ppc = "opening" /\ phase' = "Open" /\ ppc' = "tick"          \* ... the state object after the tick
+            /\ UNCHANGED <<running, active, stopA, trSet, connected, trStop, sockOpen, lsnOpen, alock, plock, ready, postQ, dprIn, dprSent, dpaIn, inbound>>
+            /\ PUnch
 \* Open.run: release from the peer first, then local stop, then the queues (one message per tick)
 PTickOpen ==
     /\ ppc = "tick" /\ phase = "Open"
     /\ IF trStop THEN StartTeardown /\ UNCHANGED <<phase, dprSent, dprIn, inbound>>
        ELSE IF ~active THEN phase' = "Closing" /\ dprSent' = TRUE /\ UNCHANGED <<ppc, dprIn, inbound>>
        ELSE \/ /\ dprIn /\ dprIn' = FALSE /\ ppc' = "f_sleep" /\ UNCHANGED <<phase, dprSent, inbound>>      \* DPA sent, forced close
-            \/ /\ inbound > 0 /\ alock = Free /\ inbound' = inbound - 1 /\ ppc' = "deliver" /\ UNCHANGED <<phase, dprSent, dprIn>>
+            \/ /\ inbound > 0 /\ alock = Free /\ inbound' = inbound - 1 /\ ppc' = "d_lock" /\ UNCHANGED <<phase, dprSent, dprIn>>
     /\ UNCHANGED <<running, active, stopA, trSet, connected, trStop, sockOpen, lsnOpen, alock, plock, ready, postQ, dpaIn>>
     /\ PUnch
-\* notify_postprocess_message: under the delivery lock
-PDeliver == /\ ppc = "deliver" /\ plock = Free /\ postQ' = postQ + 1 /\ ready' = TRUE /\ ppc' = "tick"
-            /\ UNCHANGED <<phase, running, active, stopA, trSet, connected, trStop, sockOpen, lsnOpen, alock, plock, dprIn, dprSent, dpaIn, inbound>>
+\* notify_postprocess_message: lock, put, set, unlock
+PDeliver == /\ \/ ppc = "d_lock" /\ plock = Free /\ plock' = PSM /\ ppc' = "d_put" /\ UNCHANGED <<postQ, ready>>
+               \/ ppc = "d_put" /\ postQ' = postQ + 1 /\ ppc' = "d_set" /\ UNCHANGED <<plock, ready>>
+               \/ ppc = "d_set" /\ ready' = TRUE /\ ppc' = "d_unlock" /\ UNCHANGED <<plock, postQ>>
+               \/ ppc = "d_unlock" /\ plock' = Free /\ ppc' = "tick" /\ UNCHANGED <<postQ, ready>>
+            /\ UNCHANGED <<phase, running, active, stopA, trSet, connected, trStop, sockOpen, lsnOpen, alock, dprIn, dprSent, dpaIn, inbound>>
             /\ PUnch
 PTickClosing ==
     /\ ppc = "tick" /\ phase = "Closing"
@@ -126,41 +135,55 @@ PTickClosing ==
        ELSE dpaIn /\ dpaIn' = FALSE /\ ppc' = "f_sleep"
     /\ UNCHANGED <<phase, running, active, stopA, trSet, connected, trStop, sockOpen, lsnOpen, alock, plock, ready, postQ, dprIn, dprSent, inbound>>
     /\ PUnch
+\* raising the stop flag and giving the go-ahead (repaired: under the delivery lock)
+Stopper(from, to) ==
+    \/ /\ ppc = from /\ ~Dev("D_UnlockedStop") /\ plock = Free /\ plock' = PSM /\ ppc' = from \o "_stop" /\ UNCHANGED <<stopA, ready>>
+    \/ /\ ppc = from /\ Dev("D_UnlockedStop") /\ stopA' = TRUE /\ ppc' = (IF from = "f_lock" THEN "f_oldset" ELSE to) /\ UNCHANGED <<plock, ready>>
+    \/ /\ ppc = from \o "_stop" /\ stopA' = TRUE /\ ppc' = from \o "_ready" /\ UNCHANGED <<plock, ready>>
+    \/ /\ ppc = from \o "_ready" /\ ready' = (IF Dev("D_NoWakeOnClose") /\ from = "t_lock" THEN ready ELSE TRUE) /\ ppc' = from \o "_unlock" /\ UNCHANGED <<plock, stopA>>
+    \/ /\ ppc = from \o "_unlock" /\ plock' = Free /\ ppc' = to /\ UNCHANGED <<stopA, ready>>
 \* set_closed_state(force=True): sleep, raise the stop flag, wake the consumers
-PForce == /\ \/ ppc = "f_sleep" /\ ppc' = "f_stop" /\ UNCHANGED <<stopA, ready>>
-             \/ /\ ppc = "f_stop" /\ (Dev("D_UnlockedStop") \/ plock = Free)
-                /\ stopA' = TRUE /\ ready' = TRUE /\ ppc' = "t_run"
-          /\ UNCHANGED <<phase, running, active, trSet, connected, trStop, sockOpen, lsnOpen, alock, plock, postQ, dprIn, dprSent, dpaIn, inbound>>
+PForce == /\ \/ ppc = "f_sleep" /\ ppc' = "f_lock" /\ UNCHANGED <<stopA, ready, plock>>
+             \/ Stopper("f_lock", "t_run")
+             \/ ppc = "f_oldset" /\ ready' = TRUE /\ ppc' = "t_run" /\ UNCHANGED <<stopA, plock>>      \* (before the repair: set without the lock)
+          /\ UNCHANGED <<phase, running, active, trSet, connected, trStop, sockOpen, lsnOpen, alock, postQ, dprIn, dprSent, dpaIn, inbound>>
           /\ PUnch
-\* get_next_state(CLOSED) -> association.close(), then the thread leaves its loop
+\* get_next_state(CLOSED) -> association.close() -> transport.close(); then the thread leaves its loop
 PTeardown ==
-    /\ \/ /\ ppc = "t_run" /\ running' = FALSE /\ ppc' = "t_flags"
-          /\ UNCHANGED <<phase, active, stopA, trSet, connected, trStop, sockOpen, lsnOpen, ready>>
-       \/ /\ ppc = "t_flags" /\ (Dev("D_UnlockedStop") \/ plock = Free)
-          /\ active' = FALSE /\ stopA' = TRUE /\ ppc' = "t_trclose"
-          /\ ready' = (IF Dev("D_UnlockedStop") \/ Dev("D_NoWakeOnClose") THEN ready ELSE TRUE)
-          /\ UNCHANGED <<phase, running, trSet, connected, trStop, sockOpen, lsnOpen>>
-       \/ /\ ppc = "t_trclose" /\ connected' = FALSE /\ sockOpen' = FALSE /\ lsnOpen' = FALSE /\ trStop' = TRUE /\ ppc' = "t_none"
-          /\ UNCHANGED <<phase, running, active, stopA, trSet, ready>>
+    /\ \/ /\ ppc = "t_run" /\ running' = FALSE /\ ppc' = "t_active"
+          /\ UNCHANGED <<phase, active, stopA, trSet, connected, trStop, sockOpen, lsnOpen, ready, plock>>
+       \/ /\ ppc = "t_active" /\ active' = FALSE /\ ppc' = "t_lock"
+          /\ UNCHANGED <<phase, running, stopA, trSet, connected, trStop, sockOpen, lsnOpen, ready, plock>>
+       \/ /\ Stopper("t_lock", "t_conn")
+          /\ UNCHANGED <<phase, running, active, trSet, connected, trStop, sockOpen, lsnOpen>>
+       \/ /\ ppc = "t_conn" /\ connected' = FALSE /\ ppc' = "t_sock"
+          /\ UNCHANGED <<phase, running, active, stopA, trSet, trStop, sockOpen, lsnOpen, ready, plock>>
+       \/ /\ ppc = "t_sock" /\ sockOpen' = FALSE /\ ppc' = "t_trstop"
+          /\ UNCHANGED <<phase, running, active, stopA, trSet, connected, trStop, lsnOpen, ready, plock>>
+       \/ /\ ppc = "t_trstop" /\ trStop' = TRUE /\ ppc' = (IF lsnOpen THEN "t_lsn" ELSE "t_none")
+          /\ UNCHANGED <<phase, running, active, stopA, trSet, connected, sockOpen, lsnOpen, ready, plock>>
+       \/ /\ ppc = "t_lsn" /\ lsnOpen' = FALSE /\ ppc' = "t_none"
+          /\ UNCHANGED <<phase, running, active, stopA, trSet, connected, trStop, sockOpen, ready, plock>>
        \/ /\ ppc = "t_none" /\ trSet' = FALSE /\ ppc' = "t_set"
-          /\ UNCHANGED <<phase, running, active, stopA, connected, trStop, sockOpen, lsnOpen, ready>>
+          /\ UNCHANGED <<phase, running, active, stopA, connected, trStop, sockOpen, lsnOpen, ready, plock>>
        \* (before the repair the go-ahead was given here, last and without the lock)
        \/ /\ ppc = "t_set" /\ ready' = (IF Dev("D_UnlockedStop") /\ ~Dev("D_NoWakeOnClose") THEN TRUE ELSE ready) /\ ppc' = "t_state"
-          /\ UNCHANGED <<phase, running, active, stopA, trSet, connected, trStop, sockOpen, lsnOpen>>
+          /\ UNCHANGED <<phase, running, active, stopA, trSet, connected, trStop, sockOpen, lsnOpen, plock>>
        \/ /\ ppc = "t_state" /\ phase' = "Closed" /\ ppc' = "done"
-          /\ UNCHANGED <<running, active, stopA, trSet, connected, trStop, sockOpen, lsnOpen, ready>>
-    /\ UNCHANGED <<alock, plock, postQ, dprIn, dprSent, dpaIn, inbound>>
+          /\ UNCHANGED <<running, active, stopA, trSet, connected, trStop, sockOpen, lsnOpen, ready, plock>>
+    /\ UNCHANGED <<alock, postQ, dprIn, dprSent, dpaIn, inbound>>
     /\ PUnch
-Psm == PTickSetup \/ PTickOpen \/ PDeliver \/ PTickClosing \/ PForce \/ PTeardown
+Psm == PTickSetup \/ POpening \/ PTickOpen \/ PDeliver \/ PTickClosing \/ PForce \/ PTeardown
 
 (* ------------------------------------------------------------ transport thread *)
 TUnch == UNCHANGED <<phase, running, ppc, active, stopA, trSet, connected, sockOpen, lsnOpen, wpc, alock, plock, ready, postQ, cpc, cmsg, apc, spc,
-                     peerEof, dprIn, dprSent, dpaIn, estab, refused, inbound, budget>>
+                     peerEof, rst, dprIn, dprSent, dpaIn, estab, refused, inbound, budget>>
 \* while self.is_connected and not self._stop_threads: select(); handle events
 TCheck == /\ tpc = "check" /\ tpc' = (IF connected /\ ~trStop THEN "select" ELSE "done") /\ UNCHANGED trStop /\ TUnch
 \* the peer's disconnect is read as an empty recv(); a closed socket makes the handler fail (the thread ends)
 TSelect == /\ tpc = "select"
            /\ IF ~sockOpen THEN tpc' = "done" /\ UNCHANGED trStop
+              ELSE IF peerEof /\ rst /\ Dev("D_ResetUnhandled") THEN tpc' = "done" /\ UNCHANGED trStop      \* the thread dies, nobody is told
               ELSE IF peerEof \/ refused THEN trStop' = (IF refused THEN trStop ELSE TRUE) /\ tpc' = "check"
               ELSE tpc' = "check" /\ UNCHANGED trStop
            /\ TUnch
@@ -168,7 +191,7 @@ Tr == TCheck \/ TSelect
 
 (* ------------------------------------------------------------ receive worker *)
 WUnch == UNCHANGED <<phase, running, ppc, active, stopA, trSet, connected, trStop, sockOpen, lsnOpen, tpc, plock, ready, postQ, cpc, cmsg, apc, spc,
-                     peerEof, dprIn, dprSent, dpaIn, estab, refused, inbound, budget>>
+                     peerEof, rst, dprIn, dprSent, dpaIn, estab, refused, inbound, budget>>
 \* while not self._stop_threads and self.transport:
 WTop == /\ wpc = "top" /\ wpc' = (IF ~stopA /\ trSet THEN "wait" ELSE "done") /\ UNCHANGED alock /\ WUnch
 \* self.transport._recv_data_available.wait(1): a second read of self.transport (AttributeError ends the thread, no lock held)
@@ -188,7 +211,7 @@ Wk == WTop \/ WWait \/ WAcq \/ WChk \/ WTake
 
 (* ------------------------------------------------------------ consumers: get_message() *)
 CUnch == UNCHANGED <<phase, running, ppc, active, stopA, trSet, connected, trStop, sockOpen, lsnOpen, tpc, wpc, apc, spc,
-                     peerEof, dprIn, dprSent, dpaIn, estab, refused, inbound, budget>>
+                     peerEof, rst, dprIn, dprSent, dpaIn, estab, refused, inbound, budget>>
 Set(c, v) == cpc' = [cpc EXCEPT ![c] = v]
 CCall(c) == /\ cpc[c] = "idle" /\ phase \in {"Setup", "Open", "Closing"} /\ Set(c, "top") /\ UNCHANGED <<alock, plock, ready, postQ, cmsg>> /\ CUnch
 \* while not self._stop_threads:
@@ -197,24 +220,26 @@ CTop(c) == /\ cpc[c] = "top" /\ Set(c, IF stopA THEN "ret" ELSE "check") /\ UNCH
 CCheck(c) == /\ cpc[c] = "check" /\ Set(c, IF postQ = 0 THEN "wait" ELSE "acq") /\ UNCHANGED <<alock, plock, ready, postQ, cmsg>> /\ CUnch
 CWait(c) == /\ cpc[c] = "wait" /\ ready /\ Set(c, "acq") /\ UNCHANGED <<alock, plock, ready, postQ, cmsg>> /\ CUnch
 CAcq(c) == /\ cpc[c] = "acq" /\ alock = Free /\ alock' = c /\ Set(c, "plock") /\ UNCHANGED <<plock, ready, postQ, cmsg>> /\ CUnch
+CPlock(c) == /\ cpc[c] = "plock" /\ plock = Free /\ plock' = c /\ Set(c, "take") /\ UNCHANGED <<alock, ready, postQ, cmsg>> /\ CUnch
 \* under both locks: get_nowait(); decide whether the go-ahead is withdrawn (reads the stop flag)
-CTake(c) == /\ cpc[c] = "plock" /\ plock = Free
+CTake(c) == /\ cpc[c] = "take"
             /\ IF postQ > 0
-               THEN postQ' = postQ - 1 /\ cmsg' = [cmsg EXCEPT ![c] = TRUE] /\ plock' = c
-                    /\ Set(c, IF postQ = 1 /\ ~stopA THEN "clear" ELSE "unlock")
+               THEN postQ' = postQ - 1 /\ cmsg' = [cmsg EXCEPT ![c] = TRUE]
+                    /\ Set(c, IF postQ = 1 /\ ~stopA THEN "clear" ELSE "punlock")
                ELSE /\ ~Dev("D_BlockingGet")                  \* (pinned tree: Queue.get() blocks here, both locks held)
-                    /\ plock' = c /\ Set(c, IF ~stopA THEN "clear" ELSE "unlock") /\ UNCHANGED <<postQ, cmsg>>
-            /\ UNCHANGED <<alock, ready>> /\ CUnch
-CClear(c) == /\ cpc[c] = "clear" /\ ready' = FALSE /\ Set(c, "unlock") /\ UNCHANGED <<alock, plock, postQ, cmsg>> /\ CUnch
-CUnlock(c) == /\ cpc[c] = "unlock" /\ plock' = Free /\ alock' = Free
-              /\ Set(c, IF cmsg[c] THEN "ret" ELSE "top") /\ UNCHANGED <<ready, postQ, cmsg>> /\ CUnch
-Cons == \E c \in Consumers : CCall(c) \/ CTop(c) \/ CCheck(c) \/ CWait(c) \/ CAcq(c) \/ CTake(c) \/ CClear(c) \/ CUnlock(c)
+                    /\ Set(c, IF ~stopA THEN "clear" ELSE "punlock") /\ UNCHANGED <<postQ, cmsg>>
+            /\ UNCHANGED <<alock, plock, ready>> /\ CUnch
+CClear(c) == /\ cpc[c] = "clear" /\ ready' = FALSE /\ Set(c, "punlock") /\ UNCHANGED <<alock, plock, postQ, cmsg>> /\ CUnch
+CPUnlock(c) == /\ cpc[c] = "punlock" /\ plock' = Free /\ Set(c, "aunlock") /\ UNCHANGED <<alock, ready, postQ, cmsg>> /\ CUnch
+CAUnlock(c) == /\ cpc[c] = "aunlock" /\ alock' = Free
+               /\ Set(c, IF cmsg[c] THEN "ret" ELSE "top") /\ UNCHANGED <<plock, ready, postQ, cmsg>> /\ CUnch
+Cons == \E c \in Consumers : CCall(c) \/ CTop(c) \/ CCheck(c) \/ CWait(c) \/ CAcq(c) \/ CPlock(c) \/ CTake(c) \/ CClear(c) \/ CPUnlock(c) \/ CAUnlock(c)
 
 (* ------------------------------------------------------------ application: send_message() *)
 \* put_message_into_send_queue: lock; the connection must still be there (an error goes to the caller); queue; unlock
 SUnch == UNCHANGED <<phase, running, ppc, active, stopA, trSet, connected, trStop, sockOpen, lsnOpen, tpc, wpc, plock, ready, postQ, cpc, cmsg, apc,
-                     peerEof, dprIn, dprSent, dpaIn, estab, refused, inbound, budget>>
-SCall == /\ spc = "idle" /\ phase = "Open" /\ spc' = "acq" /\ UNCHANGED alock /\ SUnch
+                     peerEof, rst, dprIn, dprSent, dpaIn, estab, refused, inbound, budget>>
+SCall == /\ spc \in {"idle", "done"} /\ phase = "Open" /\ spc' = "acq" /\ UNCHANGED alock /\ SUnch
 SAcq == /\ spc = "acq" /\ alock = Free /\ alock' = 102 /\ spc' = "chk" /\ SUnch
 SChk == /\ spc = "chk" /\ spc' = "done"
         /\ alock' = (IF ~(trSet /\ connected) /\ Dev("D_SenderKeepsLock") THEN alock ELSE Free)      \* (pinned: raises with the lock held)
@@ -232,20 +257,21 @@ Released == /\ phase = "Closed" /\ ppc = "done" /\ tpc = "done" /\ wpc = "done" 
             /\ \A c \in Consumers : cpc[c] \in {"idle", "ret"}
             /\ alock = Free /\ plock = Free /\ spc \in {"idle", "done"}
 \* the connection is ending: a release event has been taken by the state machine
-Ending == ppc \notin {"tick", "deliver"}
+Ending == ppc \notin {"tick", "opening", "d_lock", "d_put", "d_set", "d_unlock"}
 \* safety form: when no thread can take a step any more and the connection was ending, everything is released
 \* (a state in which threads are stuck is a counterexample)
 TerminalOk == (Ending /\ ~ENABLED Threads) => Released
 \* Closed is reported only once the transport has been released (restartable: start() accepts Closed only)
 ClosedIsReleased == phase = "Closed" => (~sockOpen /\ ~lsnOpen /\ ~trSet /\ ~running)
 \* nobody finishes while holding a lock
-NoLockLeak == /\ (wpc = "done" => alock # WK)
+NoLockLeak == /\ (wpc = "done" => alock # WK) /\ (ppc = "done" => plock # PSM)
               /\ \A c \in Consumers : cpc[c] \in {"idle", "ret"} => (alock # c /\ plock # c)
               /\ (spc = "done" => alock # 102)
 \* a release event leads to the released state
 EventuallyReleased == Ending ~> Released
 \* every release cause is taken: peer disconnect / refused connection / DPR / close() while open
-CausesEnd == /\ (trStop /\ ~refused) ~> Released
+CausesEnd == /\ peerEof ~> Released
+             /\ (trStop /\ ~refused) ~> Released
              /\ (refused /\ Role = "client") ~> Released
              /\ (phase = "Open" /\ dprIn) ~> Released
              /\ (phase = "Open" /\ ~active) ~> Released
